@@ -1643,7 +1643,15 @@ namespace gch
       struct is_convertible_pointer
         : bool_constant<std::is_pointer<From>::value
                     &&  std::is_pointer<To>::value
-                    &&  std::is_convertible<From, To>::value>
+                    &&  std::is_convertible<From, To>::value
+                    // The conversion must preserve the representation of the pointer, which
+                    // excludes conversions to a base class (the base may be at an offset).
+                    &&  (  std::is_same<
+                             typename std::remove_cv<
+                               typename std::remove_pointer<From>::type>::type,
+                             typename std::remove_cv<
+                               typename std::remove_pointer<To>::type>::type>::value
+                       ||  std::is_void<typename std::remove_pointer<To>::type>::value)>
       { };
 
       // Memcpyable assignment.
